@@ -1,5 +1,6 @@
 import LabtechModel.Proofs.Ready
 import LabtechModel.Proofs.Plan
+import LabtechModel.Proofs.InvMain
 /-!
 # C03 — Each distinct task runs at most once, and only if its result is needed
 
@@ -9,6 +10,21 @@ starting a task removes it from the work list and nothing ever re-inserts it
 per run (`submit_phase_nodup`); a cached task contributes no dependencies to the plan
 (`cached_not_expanded`); an already processed object is skipped (`processed_object_skipped`);
 `run_or_load_task` either loads or executes, never both (`load_xor_exec`).
+
+Whole runs (every problem, configuration, cache pre-state, fuel and schedule; no hypothesis; from
+the master invariant of `Proofs/InvLoop.lean`):
+* `submitted_at_most_once`: the `submit` events of a run (and of every loop-head state) have
+  pairwise distinct tids — an equality class is handed to the runner at most once per run;
+* `yielded_at_most_once`: likewise every task is yielded (finished/failed/died) at most once, and
+  only after it was submitted (`yielded_was_submitted`);
+* `nothing_outside_plan`: every submitted tid is in the work list built by planning, which
+  (`plan_only_reachable`) holds only tids of requested objects and of objects found in the parameters
+  of planned, not-cached objects.
+* `executed_at_most_once`: the worker records of a run (`exec t …` = `run()` executed, `load t` =
+  loaded from cache) carry pairwise distinct tasks: every equality class is executed or loaded at
+  most once, never both (`no_second_execution` in explicit form); while the coordinator is running,
+  every task with a worker record has been yielded, hence was submitted (`executed_was_yielded`).
+Not covered at whole-run level: that a `load` record appears exactly for the tasks cached beforehand.
 -/
 namespace Lt.Props.C03
 open Lt
@@ -72,5 +88,109 @@ example : (plan { backend := .serial, maxWorkers := 1, contOnFail := true, bust 
       requested := [1, 0], ty := fun _ => 0, maxPar := fun _ => none, cacheable := fun _ => true,
       fails := fun _ => false, dies := fun _ => false, behave := fun t _ => some t } [] 4).instances 0 = [0, 2] := by
   decide
+
+/-! ## whole runs -/
+
+/-- the `submit` events of a run have pairwise distinct tids -/
+theorem submitted_at_most_once (cfg : Config) (p : Problem) (store : Store) (fuel : Nat) (sched : List Choice) :
+    (submittedOf (run cfg p store fuel sched).trace).Nodup ∧
+    (submittedOf (runLoop cfg p (reqTids p) sched (initRS cfg p store fuel)).trace).Nodup := by
+  rw [run_trace]
+  exact ⟨loopHead_submitted_nodup cfg p store fuel sched, loopHead_submitted_nodup cfg p store fuel sched⟩
+
+/-- reading of `submittedOf`: it lists the tid of each `submit` event, in order -/
+theorem submittedOf_spec (tr : List Ev) (t : Tid) : t ∈ submittedOf tr ↔ ∃ uc, Ev.submit t uc ∈ tr :=
+  mem_submittedOf tr t
+
+/-- explicit form: two different positions of the trace never submit the same task -/
+theorem no_second_submit (cfg : Config) (p : Problem) (store : Store) (fuel : Nat) (sched : List Choice)
+    (a b c : List Ev) (t : Tid) (uc uc' : Bool) :
+    (run cfg p store fuel sched).trace ≠ a ++ Ev.submit t uc :: b ++ Ev.submit t uc' :: c := by
+  intro h
+  have hnd := (submitted_at_most_once cfg p store fuel sched).1
+  rw [h] at hnd
+  simp only [submittedOf, List.filterMap_append, List.filterMap_cons, evSubmit, List.append_assoc] at hnd
+  rw [List.nodup_append] at hnd
+  have := hnd.2.1
+  rw [List.cons_append, List.nodup_cons] at this
+  apply this.1
+  simp
+
+theorem yielded_at_most_once (cfg : Config) (p : Problem) (store : Store) (fuel : Nat) (sched : List Choice) :
+    (yieldedOf (run cfg p store fuel sched).trace).Nodup := by
+  rw [run_trace]; exact loopHead_yielded_nodup cfg p store fuel sched
+
+theorem yielded_was_submitted (cfg : Config) (p : Problem) (store : Store) (fuel : Nat) (sched : List Choice)
+    (t : Tid) (o : Outcome) (h : Ev.yield t o ∈ (run cfg p store fuel sched).trace) :
+    ∃ uc, Ev.submit t uc ∈ (run cfg p store fuel sched).trace := by
+  rw [run_trace] at h ⊢
+  exact loopHead_yielded_submitted cfg p store fuel sched t o h
+
+/-- every submitted task is in the plan -/
+theorem nothing_outside_plan (cfg : Config) (p : Problem) (store : Store) (fuel : Nat) (sched : List Choice)
+    (t : Tid) (uc : Bool) (h : Ev.submit t uc ∈ (run cfg p store fuel sched).trace) :
+    t ∈ (plan cfg p store fuel).pending := by
+  rw [run_trace] at h
+  exact loopHead_submitted_planned cfg p store fuel sched t uc h
+
+/-- the plan's dependency edges only come from parameters of planned objects; a cached task
+    contributes none -/
+theorem plan_only_reachable (cfg : Config) (p : Problem) (store : Store) (fuel : Nat) (t d : Tid)
+    (h : d ∈ (plan cfg p store fuel).ddeps t) :
+    useCache cfg p store t = false ∧
+    ∃ i, i ∈ (plan cfg p store fuel).instances t ∧ ∃ c ∈ p.children i, p.tidOf c = d := by
+  refine ⟨?_, plan_ddeps_sound cfg p store fuel t d h⟩
+  cases hc : useCache cfg p store t with
+  | false => rfl
+  | true => rw [plan_cached_no_deps cfg p store fuel t hc] at h; simp at h
+
+/-- every equality class is executed or loaded at most once per run -/
+theorem executed_at_most_once (cfg : Config) (p : Problem) (store : Store) (fuel : Nat) (sched : List Choice) :
+    (ranOf (run cfg p store fuel sched).trace).Nodup := by
+  rw [run_trace]; exact loopHead_ran_nodup cfg p store fuel sched
+
+/-- reading of `ranOf`: it lists the task of each `exec` / `load` record, in order -/
+theorem ranOf_spec (tr : List Ev) (t : Tid) :
+    t ∈ ranOf tr ↔ (Ev.load t ∈ tr ∨ ∃ seen, Ev.exec t seen ∈ tr) := mem_ranOf tr t
+
+/-- explicit form: no two worker records of a run belong to the same task -/
+theorem no_second_execution (cfg : Config) (p : Problem) (store : Store) (fuel : Nat) (sched : List Choice)
+    (a b c : List Ev) (e e' : Ev) (t : Tid) (he : evRan e = some t) (he' : evRan e' = some t) :
+    (run cfg p store fuel sched).trace ≠ a ++ e :: b ++ e' :: c := by
+  intro h
+  have hnd := executed_at_most_once cfg p store fuel sched
+  rw [h] at hnd
+  simp only [ranOf, List.filterMap_append, List.filterMap_cons, he, he', List.append_assoc] at hnd
+  rw [List.nodup_append] at hnd
+  have := hnd.2.1
+  rw [List.cons_append, List.nodup_cons] at this
+  apply this.1
+  simp
+
+theorem executed_was_yielded (cfg : Config) (p : Problem) (store : Store) (fuel : Nat) (sched : List Choice)
+    (hrun : (runLoop cfg p (reqTids p) sched (initRS cfg p store fuel)).status = .running) :
+    ∀ t ∈ ranOf (runLoop cfg p (reqTids p) sched (initRS cfg p store fuel)).trace,
+      t ∈ yieldedOf (runLoop cfg p (reqTids p) sched (initRS cfg p store fuel)).trace :=
+  loopHead_ran_yielded cfg p store fuel sched hrun
+
+/-- non-vacuity: with a warm cache for 1, the run executes 0, 2, 3 and loads 1, each once -/
+example :
+    ranOf (run invExCfg invExP [(1, 1000)] 4 (List.replicate 5 chooseAll)).trace = [1, 0, 2, 3] ∧
+    Ev.load 1 ∈ (run invExCfg invExP [(1, 1000)] 4 (List.replicate 5 chooseAll)).trace ∧
+    Ev.exec 3 [some 1000, some 2000] ∈ (run invExCfg invExP [(1, 1000)] 4 (List.replicate 5 chooseAll)).trace := by
+  decide
+
+/-- non-vacuity: the diamond with the duplicated object 4 (= task 0): four submits, one per class -/
+example :
+    submittedOf (run invExCfg invExP [] 4 (List.replicate 5 chooseAll)).trace = [0, 1, 2, 3] ∧
+    (plan invExCfg invExP [] 4).pending = [3, 1, 2, 0] ∧
+    (plan invExCfg invExP [] 4).instances 0 = [0, 4] := by decide
+
+/-- non-vacuity with a warm cache: task 1 is cached, so it is loaded and its dependency edge is not
+    planned; 0 still runs because 2 needs it -/
+example :
+    submittedOf (run invExCfg invExP [(1, 1000)] 4 (List.replicate 5 chooseAll)).trace = [1, 0, 2, 3] ∧
+    (plan invExCfg invExP [(1, 1000)] 4).ddeps 1 = [] ∧
+    Ev.load 1 ∈ (run invExCfg invExP [(1, 1000)] 4 (List.replicate 5 chooseAll)).trace := by decide
 
 end Lt.Props.C03
